@@ -149,3 +149,33 @@ func (l *Layout) SharedMap() map[string][]int {
 	}
 	return out
 }
+
+// AutoNullEntity returns a NullEntity function for the simulator: a subgraph
+// answers null ("not known here") for an entity of a single-key type when every
+// non-key field of that entity which the subgraph owns in this layout is null
+// in the universe - the monolith's answer is then unchanged.
+func AutoNullEntity(l *Layout) func(sg int, typeName string, e Obj) bool {
+	return func(sg int, typeName string, e Obj) bool {
+		t := l.S.Type(typeName)
+		if t == nil || len(t.Keys) != 1 {
+			return false
+		}
+		owned := 0
+		for _, f := range t.Fields {
+			if f.Key || f.Requires != "" {
+				if f.Requires != "" && l.owns(sg, FieldRef{typeName, f.Name}) {
+					return false
+				}
+				continue
+			}
+			if !l.owns(sg, FieldRef{typeName, f.Name}) {
+				continue
+			}
+			owned++
+			if v, ok := e[f.Name]; ok && v != nil {
+				return false
+			}
+		}
+		return owned > 0
+	}
+}
